@@ -23,6 +23,7 @@ type genReq struct {
 	Expect  string   `json:"expect"`            // 405 | malformed | proving_error | valid | gray
 	Hash    *big.Int `json:"hash,omitempty"`    // the request's input hash (for checking a 200 body)
 	Framing string   `json:"framing,omitempty"` // "" (Content-Length) | chunked | expect-continue
+	Query   string   `json:"query,omitempty"`   // appended to /prove ("?x=1"): still a request to /prove
 }
 
 func (r genReq) bytes() []byte {
@@ -47,6 +48,10 @@ func marshalTree(d map[string]any) string {
 // genRequest draws a request and, for POSTs, its HTTP framing and (for documents) an escaped spelling.
 func genRequest(t *rapid.T, mode string, depth, batch int) genReq {
 	r := genRequestBody(t, mode, depth, batch)
+	if rapid.IntRange(0, 7).Draw(t, "with_query") == 0 {
+		// a query string does not make it another endpoint: same answer, same accounting
+		r.Query = pick(t, "query", "?x=1", "?", "?mode=deletion&x=%20y", "?a=1&a=2")
+	}
 	if r.Method == "POST" && r.PadLen == 0 {
 		r.Framing = pick(t, "framing", "", "", "", "", "chunked", "expect-continue")
 		if strings.HasPrefix(r.Body, "{") && rapid.IntRange(0, 7).Draw(t, "escape") == 0 {
